@@ -459,18 +459,40 @@ class _Timeout(BaseException):
     pass
 
 
+QUERY_CPU_LIMIT = 45.0  # seconds of CPU time (not wall time: the box may be loaded) for ONE query; the whole battery takes < 1 s
+
+
+def _on_vtalrm(signum, frame):
+    raise _Timeout()
+
+
 def _ans(fn):
     """Outcome of one query: the canonical answer, or '!ExcType' for an ordinary exception
-    ('!!ExcType' for resource exhaustion)."""
+    ('!!ExcType' for resource exhaustion, '!!does-not-terminate' when the query burns more than QUERY_CPU_LIMIT seconds
+    of CPU time - e.g. an ancestry walk over a parent cycle that a wrong commit-graph created)."""
+    import signal
+    import threading
+
+    armed = False
+    if threading.current_thread() is threading.main_thread():
+        try:
+            signal.signal(signal.SIGVTALRM, _on_vtalrm)
+            signal.setitimer(signal.ITIMER_VIRTUAL, QUERY_CPU_LIMIT)
+            armed = True
+        except (ValueError, OSError):
+            armed = False
     try:
         return fn()
     except _Timeout:
-        raise
+        return "!!does-not-terminate"
     except (MemoryError, RecursionError) as e:
         return "!!" + type(e).__name__
     except Exception as e:
         n = type(e).__name__
         return "!" + (n if n != "error" else type(e).__module__ + ".error")  # (zlib.error, struct.error, binascii.error ...)
+    finally:
+        if armed:
+            signal.setitimer(signal.ITIMER_VIRTUAL, 0)
 
 
 def battery(h: Hist, repo, families=None, extra_ids=(), only=None, list_only=False):
